@@ -223,12 +223,15 @@ impl<T: Clone> WithSpec<T> {
                 // important takes priority over not important.
                 return;
             }
-            // importance is the same.  Next is checking the origin.
-            {
+            if self.important == important {
+                // importance is the same.  Next is checking the origin.
                 use StyleOrigin::*;
                 match (self.origin, origin) {
                     (Agent, Agent) | (User, User) | (Author, Author) => {
-                        // They're the same so continue the comparison
+                        // We're now from the same origin and importance
+                        if specificity < self.specificity {
+                            return;
+                        }
                     }
                     (mine, theirs) => {
                         if (important && theirs > mine) || (!important && mine > theirs) {
@@ -237,10 +240,7 @@ impl<T: Clone> WithSpec<T> {
                     }
                 }
             }
-            // We're now from the same origin an importance
-            if specificity < self.specificity {
-                return;
-            }
+            // Otherwise the new value is important and the old one is not: it wins.
         }
         self.val = Some(val);
         self.origin = origin;
